@@ -161,12 +161,39 @@ Proof.
   unfold direction. destruct (vidx vars c1 v1) as [i1|]; [|discriminate].
   destruct (vidx vars c2 v2) as [i2|]; [|discriminate]. intros H. exists i1, i2. split; auto. split; auto.
   destruct (optZ_eqb (parent_of names ps c1) (parent_of names ps c2)).
-  - destruct (is_out (pub_of vars i1)); inversion H; auto.
+  - destruct (is_out (pub_of vars i1) && is_in (pub_of vars i2)); [inversion H; auto|].
+    destruct (is_out (pub_of vars i2) && is_in (pub_of vars i1)); inversion H; auto.
   - destruct (optZ_eqb (Some c1) (parent_of names ps c2)); cbn [fst snd] in H.
     + destruct (is_in (pub_of vars i2) && is_out (priv_of vars i1)); [inversion H; auto|].
       destruct (is_out (pub_of vars i2) && is_in (priv_of vars i1)); inversion H; auto.
-    + destruct (is_in (pub_of vars i1) && is_out (priv_of vars i2)); [inversion H; auto|].
+    + destruct (optZ_eqb (Some c2) (parent_of names ps c1)); cbn [fst snd] in H; [|discriminate].
+      destruct (is_in (pub_of vars i1) && is_out (priv_of vars i2)); [inversion H; auto|].
       destruct (is_out (pub_of vars i1) && is_in (priv_of vars i2)); inversion H; auto.
+Qed.
+
+(* the CellML rule (3.4.6): which interface each end shows to the other, and that they form an (in, out) pair *)
+Definition valid_pair vars names ps (c1 c2 : Z) (i1 i2 : nat) : bool :=
+  if optZ_eqb (parent_of names ps c1) (parent_of names ps c2)
+  then (is_out (pub_of vars i1) && is_in (pub_of vars i2)) || (is_out (pub_of vars i2) && is_in (pub_of vars i1))
+  else if optZ_eqb (Some c1) (parent_of names ps c2)
+       then (is_in (pub_of vars i2) && is_out (priv_of vars i1)) || (is_out (pub_of vars i2) && is_in (priv_of vars i1))
+       else if optZ_eqb (Some c2) (parent_of names ps c1)
+            then (is_in (pub_of vars i1) && is_out (priv_of vars i2)) || (is_out (pub_of vars i1) && is_in (priv_of vars i2))
+            else false.
+
+Lemma direction_valid vars names ps c1 v1 c2 v2 i1 i2 st : vidx vars c1 v1 = Some i1 -> vidx vars c2 v2 = Some i2 ->
+  direction vars names ps c1 v1 c2 v2 = OK st -> valid_pair vars names ps c1 c2 i1 i2 = true.
+Proof.
+  unfold direction, valid_pair. intros -> ->.
+  destruct (optZ_eqb (parent_of names ps c1) (parent_of names ps c2)).
+  - destruct (is_out (pub_of vars i1) && is_in (pub_of vars i2)); auto.
+    destruct (is_out (pub_of vars i2) && is_in (pub_of vars i1)); auto. discriminate.
+  - destruct (optZ_eqb (Some c1) (parent_of names ps c2)); cbn [fst snd].
+    + destruct (is_in (pub_of vars i2) && is_out (priv_of vars i1)); auto.
+      destruct (is_out (pub_of vars i2) && is_in (priv_of vars i1)); auto. discriminate.
+    + destruct (optZ_eqb (Some c2) (parent_of names ps c1)); cbn [fst snd]; [|discriminate].
+      destruct (is_in (pub_of vars i1) && is_out (priv_of vars i2)); auto.
+      destruct (is_out (pub_of vars i1) && is_in (priv_of vars i2)); auto. discriminate.
 Qed.
 
 Lemma vidx_lt vars c n i : vidx vars c n = Some i -> (i < length vars)%nat.
@@ -400,8 +427,11 @@ Qed.
 Lemma direction_nofuel vars names ps c1 v1 c2 v2 : direction vars names ps c1 v1 c2 v2 <> OutOfFuel.
 Proof.
   unfold direction. destruct (vidx vars c1 v1); [|discriminate]. destruct (vidx vars c2 v2); [|discriminate].
-  destruct (optZ_eqb _ _). { destruct (is_out _); discriminate. }
-  cbv zeta. destruct (_ && _); [discriminate|]. destruct (_ && _); discriminate.
+  destruct (optZ_eqb _ _). { destruct (_ && _); [discriminate|]. destruct (_ && _); discriminate. }
+  destruct (optZ_eqb (Some c1) _); cbv zeta; cbn [fst snd].
+  - destruct (_ && _); [discriminate|]. destruct (_ && _); discriminate.
+  - destruct (optZ_eqb (Some c2) _); [|discriminate]. cbn [fst snd].
+    destruct (_ && _); [discriminate|]. destruct (_ && _); discriminate.
 Qed.
 
 Lemma conn_step_nofuel vars names ps acc k : conn_step vars names ps acc k <> OutOfFuel.
@@ -554,6 +584,20 @@ Lemma reject_no_direction d :
 Proof.
   intros (p & Hp & Hd). apply reject. intros f H. apply load_stages in H.
   destruct (stages_pair _ _ H _ Hp) as (s & t & Hd' & _). congruence.
+Qed.
+
+(* full strength after the fix: commit 9e0bca6: a connection whose ends do not show each other an (in, out) pair of
+   interfaces -- both sources, both receivers, an end without interface, components that are neither siblings nor
+   parent and child -- is refused *)
+Lemma reject_invalid_interfaces d :
+  (exists c1 v1 c2 v2 i1 i2, In (c1, v1, c2, v2) (all_pairs (d_conns d)) /\
+     vidx (st_vars d) c1 v1 = Some i1 /\ vidx (st_vars d) c2 v2 = Some i2 /\
+     valid_pair (st_vars d) (st_names d) (st_ps d) c1 c2 i1 i2 = false) ->
+  exists e, load d = Error e.
+Proof.
+  intros (c1 & v1 & c2 & v2 & i1 & i2 & Hp & H1 & H2 & Hv). apply reject. intros f H. apply load_stages in H.
+  destruct (stages_pair _ _ H _ Hp) as (s & t & Hd & _). cbn in Hd.
+  rewrite (direction_valid _ _ _ _ _ _ _ _ _ _ H1 H2 Hd) in Hv. discriminate.
 Qed.
 
 (* both ends are variables without any `in` interface *)
